@@ -148,10 +148,10 @@ class MATCH_sorted:
 
 
 def _text_arrays(rng):
-    words = ['apple', 'Apple', 'banana', 'b?n*', 'cherry', '', 'a*', 'APPLE', 'ch?rry']
+    words = ['apple', 'Apple', 'banana', 'b?n*', 'cherry', '', 'a*', 'APPLE', 'ch?rry', 'app', 'apple pie', 'AB-1', 'AB-10', 'AB-100', 'pea', 'pear', 'a.c', 'abc', 'a[b]', 'a~*']
     for n in range(1, 5):
         for _ in range(60):
-            arr = [rng.choice(words[:6] + [3, 2.5, True, None]) for _ in range(n)]
+            arr = [rng.choice(words[:6] + words[9:] + [3, 2.5, True, None]) for _ in range(n)]
             for x in words:
                 yield [x, arr, 0]
 
